@@ -33,6 +33,9 @@ structure GenArgs where
   /-- a file with the name the template gives this call (`_rev_path`) is already in the version path: the
       name joins the id and the message slug (or leaves the id out), so two different revisions can map to one name -/
   fileTaken : Bool := false
+  /-- the path `_rev_path` gives this call (version path + file name), when the caller of the model knows it
+      (`none`: the name contains date tokens of the real clock) -/
+  file : Option String := none
   deriving Repr, Inhabited
 
 def hasDup : List (Option Id) → Bool
@@ -105,5 +108,28 @@ def stepCall (st : Hist × LMap) (a : GenArgs) : Hist × LMap :=
   match genCall st.2 a with
   | .ok (r, m') => (st.1 ++ [r], m')
   | .error _ => st
+
+/-! ## the directory with its files: a sequence of calls -/
+
+/-- the revision files on disk (history in load order), the in-memory map, and the paths present in the
+    version locations -/
+structure DirState where
+  hist : Hist
+  map : LMap
+  files : List String
+
+/-- the call as `generate_revision` sees it in a directory holding `files`: its own path may be taken -/
+def GenArgs.inDir (a : GenArgs) (files : List String) : GenArgs :=
+  { a with fileTaken := a.fileTaken || (match a.file with | some f => decide (f ∈ files) | none => false) }
+
+/-- one call against the directory: an accepted call adds its revision and its file; a refused call
+    writes nothing, replaces nothing and does not touch the map -/
+def stepCallF (st : DirState) (a : GenArgs) : DirState :=
+  match genCall st.map (a.inDir st.files) with
+  | .ok (r, m') =>
+    { hist := st.hist ++ [r], map := m', files := match a.file with | some f => st.files ++ [f] | none => st.files }
+  | .error _ => st
+
+def runCallsF (st : DirState) (calls : List GenArgs) : DirState := calls.foldl stepCallF st
 
 end Model.Gen
